@@ -84,6 +84,9 @@ func main() {
 	// collector run continuously and serialises the workers
 	debug.SetGCPercent(1600)
 	c := rt.New(os.Args[1])
+	if names := exploreUnknownMethods(); len(names) > 0 {
+		c.Extra("methods_outside_the_pinned_api_called_before_the_streams", names)
+	}
 	runGuarded(c, f)
 	c.Finish()
 }
